@@ -5,7 +5,7 @@
     elements ([link_flatten]). *)
 From Coq Require Import NArith List Bool Lia PeanoNat Permutation.
 From SV Require Import Text.Str Text.Escape Text.Tokenizer Fmt.DmxKv2 Fmt.DmxKv2Proofs Fmt.DmxKv2Nested Fmt.DmxKv2NestedProofs
-  Fmt.DmxKv2Graph Fmt.DmxKv2GraphProofs Fmt.DmxKv2GraphUnique Fmt.DmxKv2GraphFuel.
+  Fmt.DmxKv2Graph Fmt.DmxKv2GraphProofs Fmt.DmxKv2GraphUnique Fmt.DmxKv2GraphFuel Fmt.DmxKv2GraphLink.
 Import ListNotations.
 Open Scope nat_scope.
 
@@ -92,6 +92,16 @@ Proof.
       * unfold flatten in Hk. apply in_map_iff in Hk. destruct Hk as [e [<- He]]. destruct (In_nth g e dflt_gelem He) as [i [Li <-]].
         apply (nest_complete g isroot d R0 Hne Hr H i (Hreach i Li)).
   - apply (nest_root_first g isroot d R0 Hne H).
+Qed.
+
+(** the graph the reader builds from the registered elements: its flat document is what was registered *)
+Theorem nest_reader_graph d : nest_doc g isroot false = Some d -> exists g', link (unnest d) = Some g' /\ flatten g' = unnest d.
+Proof.
+  intros H. rewrite (unnest_nest g isroot d H). unfold link.
+  replace (map (flatk g) (all_blocks g isroot)) with (map (flat_elem (ids g)) (map (fun i => nth i g dflt_gelem) (all_blocks g isroot)))
+    by (rewrite map_map; reflexivity).
+  rewrite all_ids_flatten. eexists. split; [reflexivity|].
+  apply flatten_link. unfold link. now rewrite all_ids_flatten.
 Qed.
 
 (** the tree of blocks can be carried by the text: no inline block has an attribute type keyword as its type *)
